@@ -78,6 +78,7 @@ def c01(ctx):
     RT.rule_wrapper_once(ctx, lin)
     RT.rule_state_owner(ctx, lin)
     RA.rule_no_skip(ctx, aks)
+    RT.rule_value_fwd(ctx, lin)
     ctx.floor("qmin", 5)
     ctx.floor("cons", 3)
     ctx.floor("msum", 3)
@@ -105,6 +106,7 @@ def c05(ctx):
     RT.rule_wrapper_once(ctx, COUNTMIN, ("add", "query"))
     RA.rule_no_skip(ctx, RA.add_kernels(F))
     RT.rule_observers(ctx, COUNTMIN)
+    RT.rule_value_fwd(ctx, COUNTMIN)
     ctx.floor("no-skip", 6)
     ctx.floor("qmin", 15)
     ctx.floor("cons", 9)
@@ -140,6 +142,7 @@ def c03(ctx):
     RH.rule_report(ctx)
     RT.rule_wrapper_once(ctx, hh)
     RT.rule_state_owner(ctx, hh)
+    RT.rule_value_fwd(ctx, hh)
     ctx.floor("keyid", 3)
     ctx.floor("bm-table", 8)
     ctx.floor("range", 20)
@@ -261,11 +264,15 @@ def c10(ctx):
       "Repository-side necessary conditions only: on every load path the file is read exclusively through `with np.load(filename)` "
       "(zip container whose end-of-central-directory record is written last; no allow_pickle, no mmap), known prefix-tolerant readers "
       "are violations and unknown readers make the check undecided; no exception handler on a load path swallows a failed read, and the "
-      "loaders return only after all members were read. That every strict prefix is rejected is a property of NumPy/zipfile and is trusted.",
+      "loaders return only after all members were read; on the writer side each save() produces the file with exactly one np.savez call "
+      "and nothing re-opens or appends to it afterwards (a trailing zip comment would make truncated copies loadable). That every strict "
+      "prefix of an np.savez archive is rejected is a property of NumPy/zipfile and is trusted.",
       trusted=("zip container semantics: np.load of a strict prefix of an .npz raises",))
 def c20(ctx):
     RT.rule_reader_api(ctx)
     RT.rule_no_swallow(ctx)
+    RT.rule_writer_api(ctx)
+    ctx.floor("writer-api", 4)
     ctx.floor("reader-api", 9)
     ctx.floor("no-swallow", 6)
 
@@ -297,14 +304,22 @@ def c16(ctx):
       "self.add(key, value)` (HLL: keys only), update(list) is `for key in keys: self.add(key)`, update_ngram is add_ngram per element, "
       "sketch[key] returns self.query(key), inherited entry points dispatch through the MRO to the subclass's own add; each of the five "
       "_add_ngram* kernels adds the whole key once iff len(key) <= n and otherwise exactly the windows key[i:i+n], i in range(len-n+1), "
-      "each once with the sketch state forwarded unchanged; add() forwards key and (capped) multiplicity to one kernel call. "
-      "Not decided: 'add(key, v) equals v unit adds' (hand argument from cons/bm-table; for log sketches only in distribution).")
+      "each once with the sketch state forwarded unchanged; add() forwards key and (capped) multiplicity to one kernel call; for log "
+      "sketches the bulk step is exactly `value` unit steps of _log_counter (+1 each, no shortcut that is not value-exact) with the draw "
+      "pointer threaded linearly (logstep, randtoken), so add(key, v) consumes draws like v unit adds. "
+      "Not decided: the algebraic composition 'bulk rule == v unit rules' for linear/heavy-hitter cells (hand argument from newcount/bm-table).")
 def c12(ctx):
     RA.rule_bind(ctx)
     RT.rule_deleg(ctx)
     RT.rule_window(ctx)
     RT.rule_value_fwd(ctx)
     RT.rule_wrapper_once(ctx)
+    # add(key, v) == v unit adds, for log sketches under identical draws: the bulk step is literally v unit steps, each
+    # drawing like a unit add, with the draw pointer threaded linearly; linear/HH bulk rules compose (hand argument)
+    RA.rule_logstep(ctx)
+    RM.rule_randtoken(ctx)
+    RA.rule_newcount(ctx)
+    ctx.floor("logstep", 8)
     ctx.floor("deleg", 12)
     ctx.floor("window", 20)
     ctx.floor("value-fwd", 12)
